@@ -297,3 +297,17 @@ def run(ctx):
                 r6.check(w6 is None, "query-arm-always-infers-shard", "every way through the Query arm passes infer_shard (unless no automatic sharding key is configured)",
                          "a branch of the Query arm goes on to the next statement without deriving the shard (activity-based routing: a SELECT on a recently written table, or any SELECT while the database counts as initializing): "
                          "the statement runs on the shard the previous statement selected", "", w6 and inf6.describe_path(w6))
+    # every key the statement mentions takes part: the routines that collect keys from the AST (rows of VALUES, conjuncts of WHERE, assignments,
+    # the parameters of a Bind) walk their collections in full - an iterator over the AST that is cut short (take / skip / step_by / take_while /
+    # skip_while) leaves keys unseen: `INSERT .. VALUES (1, ..), (2, ..)` routed by its first row alone runs the second row on the wrong shard
+    KEYFN = re.compile(r"^pgcat::query_router::QueryRouter::(infer|infer_shard|process_query|selection_parser|assignment_parser|infer_shard_from_exprs|infer_shard_from_bind)(::\{closure#\d+\})*$")
+    CUT = "re:(^|::)Iterator::(take|skip|step_by|take_while|skip_while)$"
+    kfs = sorted(n_ for n_ in F.bodies if KEYFN.match(n_))
+    n_loops = 0
+    for n_ in kfs:
+        b_ = F.body(n_)
+        n_loops += len(loop_headers(b_))
+        for c in b_.calls(CUT):
+            r6.fail("walks-in-full:%s@%s" % (c.name.split("::")[-1], n_.split("QueryRouter::")[-1]), "%s cuts an iterator short with %s(): part of the statement's rows / conditions / parameters never reach the key extraction, "
+                    "and the statement is routed by the keys of the part that was looked at" % (n_.split("QueryRouter::")[-1], c.name.split("::")[-1]), c.where())
+    r6.check(len(kfs) >= 6 and n_loops >= 8, "walks-in-full", "the %d key-extraction routines (%d loops) apply no truncating adaptor to an iterator" % (len(kfs), n_loops), "key-extraction routines not found (%d, %d loops)" % (len(kfs), n_loops))
